@@ -580,6 +580,27 @@ def c13(run):
             job["ops"] = stack_scripts(r, c, 1)[0]
         return job
     units.trace_unit(run, ok, rng, per_case=10 if q else 20, tag="histories", job_filter=jf, bufsizes=(0, 1, 2, 5, 16), maxops=40)
+    # known finding: the C++ lexer class obtains its REJECT state buffer with new[] and enlarges it with yyrealloc() when a buffer
+    # larger than YY_BUF_SIZE becomes current (the harness's buffers are smaller than that, so the histories above never get there)
+    def cxxrej_probe(sub):
+        import subprocess, tempfile
+        wd = tempfile.mkdtemp(prefix="cxxrej.", dir=sub.work)
+        open(os.path.join(wd, "p.l"), "w").write(
+            "%option c++ noyywrap\n%{\n#include <iostream>\n#include <sstream>\n%}\n%%\nabc\t{ REJECT; }\n.|\\n\t{ }\n%%\n"
+            "int main() { std::istringstream in(\"abcabc\\n\"); yyFlexLexer lexer;\n"
+            "  lexer.yy_switch_to_buffer(lexer.yy_create_buffer(in, 4 * YY_BUF_SIZE));\n  while (lexer.yylex() != 0) ;\n  return 0; }\n")
+        a = subprocess.run([os.path.join(fd, "flex"), "-o", "p.cc", "p.l"], cwd=wd, stdout=subprocess.PIPE, stderr=subprocess.STDOUT, text=True)
+        b = subprocess.run(["g++", "-g", "-w", "-fsanitize=address", "-I", fd, "-o", "p", "p.cc"], cwd=wd, stdout=subprocess.PIPE, stderr=subprocess.STDOUT, text=True)
+        if a.returncode or b.returncode:
+            sub.error("cxxrej probe did not build: %s %s" % (a.stdout[-300:], b.stdout[-300:])); return
+        r = subprocess.run(["./p"], cwd=wd, stdout=subprocess.PIPE, stderr=subprocess.PIPE, text=True, errors="replace", timeout=60,
+                           env=dict(os.environ, ASAN_OPTIONS="alloc_dealloc_mismatch=1:detect_leaks=1"))
+        sub.note_case(dict(probe="cxx-reject-realloc"))
+        if r.returncode != 0:
+            sub.violation("trace:crash", "C++ REJECT scanner switched to a buffer of 4*YY_BUF_SIZE: %s" % " | ".join(
+                l.strip() for l in r.stderr.splitlines() if "ERROR" in l or "yyrealloc" in l or "operator new" in l)[:400],
+                dict(stderr=r.stderr[:1500]), [os.path.join(wd, "p.l")])
+    run.probe("cxx-reject-realloc", cxxrej_probe)
     # (ii') tables loaded from a file that holds another scanner's set in front of ours (documented: sets may be concatenated):
     # what yytables_fload() allocates while skipping it has to be handed back as well (LeakSanitizer at the end of the process)
     tsrc = srcs[:3 if q else 8]
